@@ -86,9 +86,9 @@ def run(R, tier):
     for fn, inner in (("next_data", "next_token"), ("next_optional_data", "next_optional_token")):
         bb = u.body("scpi::parser::parameters::Parameters::" + fn)
         names = [c.name for c in bb.calls()]
-        ok = sum(1 for n in names if n.endswith("Parameters::" + inner)) == 1 and any(n.endswith(("TryInto::try_into", "TryFrom::try_from")) for n in names)
+        ok = sum(1 for n in names if n.endswith("Parameters::" + inner)) == 1
         ok = ok and not any("Peekable" in n for n in names)
-        R.check(ok, "R06.2", fn, "obtains its token only through %s and converts it" % inner, "%s must take its token from %s: calls %s" % (fn, inner, names))
+        R.check(ok, "R06.2", fn, "obtains its token only through %s (conversion: R06.4)" % inner, "%s must take its token from %s: calls %s" % (fn, inner, names))
 
     # a failed conversion of a supplied element is the unit's error (never "absent", never dropped)
     for fn in ("next_data", "next_optional_data"):
